@@ -84,7 +84,8 @@ Definition finish_init : list tev :=
   [TSetStatus (ST_ACK + ST_DRIVER + ST_FEATURES_OK + ST_DRIVER_OK)].
 
 (* ---------- environment ---------- *)
-Inductive tkind := TKModel | TKMmioLegacy | TKMmioModern.
+(* TKPci: the real PciTransport (Model/InitPci.v): never the legacy layout, a generation register *)
+Inductive tkind := TKModel | TKMmioLegacy | TKMmioModern | TKPci.
 
 Record qans := mkQa {
   qa_used : bool;        (* answer of queue_used *)
@@ -107,7 +108,7 @@ Record env := mkEnv {
   e_utf8 : bool }.       (* String::from_utf8 accepts the 9p mount tag *)
 
 Definition legacy_layout (e : env) : bool :=
-  match e_tk e with TKModel => e_legacy e | TKMmioLegacy => true | TKMmioModern => false end.
+  match e_tk e with TKModel => e_legacy e | TKMmioLegacy => true | TKMmioModern => false | TKPci => false end.
 
 (* ---------- config space ---------- *)
 Fixpoint le_val (bytes : list N) : N :=
